@@ -4,6 +4,8 @@ LineWhitespace::{len, add, zero}; DecisionRequirement::map_can_break;
 RawDecision::with_continuation; Decision::to_raw;
 ReconstructionSettings::new (lengths of the three strings, for all u8 x u8).
 """
+import vxgen
+
 TYPES = 'core/src/rules/optimising_line_formatter/types.rs'
 LANG = 'core/src/lang.rs'
 
@@ -85,8 +87,7 @@ pub open spec fn all_bytes(s: Seq<u8>, b: u8) -> bool { forall|i: int| 0 <= i < 
     u.assume('LineWhitespace::add: no overflow only below 65 536 nesting levels (explicit requires; needs > 65 535 nested blocks to violate)')
     W2 = r'^impl LineWhitespace \{'
     u.fn(TYPES, r'^    pub\(super\) fn len\(&self, recon_settings: &ReconstructionSettings\)', name='LineWhitespace::len', within_re=W2,
-         edits=[('recon_settings.get_indentation_str().len()', 'recon_settings.get_indentation_str().as_bytes().len()', 'D5'),
-                ('recon_settings.get_continuation_str().len()', 'recon_settings.get_continuation_str().as_bytes().len()', 'D5')],
+         edits=[vxgen.D5_GETTER_LEN],
          requires=['sS(recon_settings.indentation_str).len() <= 255', 'sS(recon_settings.continuation_str).len() <= 255'],
          ensures=['r as int == self.indentations as int * sS(recon_settings.indentation_str).len() + self.continuations as int * sS(recon_settings.continuation_str).len()'],
          opens_with='''    proof {
